@@ -48,8 +48,9 @@ indices, `n` = number of instructions):
 * local variables: `none`, or a non-empty list in which every entry has exactly one of descriptor / signature and all
   descriptor entries precede all signature entries (the order in which `LocalVariableTable` and
   `LocalVariableTypeTable` are written and read back);
-* type annotations with targets admissible inside `Code` on instructions; **no unknown attributes** (`write_code` drops
-  them: `code_unknown_attributes_dropped_witness`); fewer than 65535 label references. -/
+* type annotations with targets admissible inside `Code` on instructions; unknown attributes whose names are not
+  names of attributes the reader interprets inside `Code` (`codeAttrNames`; written since the repair, regression theorem
+  `code_unknown_attributes_written`); fewer than 65535 label references. -/
 structure RCodeOk (c : Code) : Prop where
   insns : ∀ e ∈ c.insns, insnOk e.insn ∧ (∀ t ∈ targetsOf e.insn, t < c.insns.length) ∧
     ∀ f, e.frame = some f → frameOkR c.insns.length f
@@ -63,7 +64,7 @@ structure RCodeOk (c : Code) : Prop where
     vs = (vs.filter fun v => v.desc.isSome) ++ (vs.filter fun v => v.sig.isSome) ∧ ∀ v ∈ vs, lvOk c.insns.length v
   rvta : CodeTypeAnnosOk id c.insns.length c.rvta
   ritva : CodeTypeAnnosOk id c.insns.length c.ritva
-  attrs : c.attrs = []
+  attrs : ∀ a ∈ c.attrs, a.name ∉ codeAttrNames
   refs : codeRefs c < 65535
 
 /-- the proved fragment of method bodies: the labels resolve (`Code.resolve`, C01) and the resolved body is `RCodeOk` -/
@@ -195,11 +196,11 @@ theorem writeCode_inv {c : Code} {p p' : Pool} {bs bs' : List Bsm} {b : Bytes} {
       writeSlice16 (writeException (fun id => res.label (lab id))) p1 c.exceptions = .ok (eb, p2) ∧
       FrameWrite.attr res.label p2 (FrameWrite.framesOf res (c.insns.map fun e => e.frame.map (frameOf lab))) = .ok (smt, p3) ∧
       runAttrs
-        [ifSome c.lines (fun ls => attrBuf sLineNumberTable (fun p => writeSlice16 (writeLine (fun id => res.label (lab id))) p ls)),
+        ([ifSome c.lines (fun ls => attrBuf sLineNumberTable (fun p => writeSlice16 (writeLine (fun id => res.label (lab id))) p ls)),
          lvAttr (fun id => res.label (lab id)) false sLocalVariableTable c.locals,
          lvAttr (fun id => res.label (lab id)) true sLocalVariableTypeTable c.locals,
          typeAnnosAttr (writeTargetCode (fun id => res.label (lab id))) sRVTA c.rvta,
-         typeAnnosAttr (writeTargetCode (fun id => res.label (lab id))) sRITA c.ritva] p3 = .ok (as, p') ∧
+         typeAnnosAttr (writeTargetCode (fun id => res.label (lab id))) sRITA c.ritva] ++ unknownAttrs c.attrs) p3 = .ok (as, p') ∧
       attrsBytes (smtBytes smt ++ as) = .ok ab ∧
       b = be16 c.maxStack ++ be16 c.maxLocals ++ be32 res.code.length ++ res.code ++ eb ++ ab := by
   unfold writeCode at h
@@ -225,5 +226,58 @@ theorem writeCode_inv {c : Code} {p p' : Pool} {bs bs' : List Bsm} {b : Bytes} {
       | none => exact h5
       | some ib => obtain ⟨i, b⟩ := ib; exact h5
     exact ⟨is, p1, res, eb, p2, smt, p3, as, ab, h1, hres, h2, h3, h4, h5', rfl⟩
+
+/-- the loop over unknown attributes, without any assumption on the pool: one framed attribute per entry, in order -/
+theorem unknownAttrs_shape : ∀ (as : List Attr) {p p' : Pool} {bs : List Bytes},
+    runAttrs (unknownAttrs as) p = .ok (bs, p') →
+    ∃ ncs : List Nat, ncs.length = as.length ∧ bs = (ncs.zip as).map (fun x => attrFrame x.1 x.2.bytes) ∧
+      ∀ x ∈ ncs.zip as, x.2.bytes.length < 4294967296 := by
+  intro as
+  induction as with
+  | nil =>
+    intro p p' bs h
+    obtain ⟨rfl, rfl⟩ := runAttrs_nil_inv h
+    exact ⟨[], rfl, rfl, by simp⟩
+  | cons a as ih =>
+    intro p p' bs h
+    obtain ⟨o, p1, bs1, h1, h2, rfl⟩ := runAttrs_cons_inv h
+    obtain ⟨b, hb, rfl⟩ := always_inv h1
+    obtain ⟨i, _, hl, rfl⟩ := unknownAttr_inv hb
+    obtain ⟨ncs, hlen, rfl, hr⟩ := ih h2
+    refine ⟨i :: ncs, by simp [hlen], by simp, ?_⟩
+    intro x hx
+    simp only [List.zip_cons_cons, List.mem_cons] at hx
+    rcases hx with rfl | hx
+    · simp only; omega
+    · exact hr x hx
+
+/-- **the unknown attributes of a method body are written** (every successful `write_code`, no fragment): the
+attribute table of `Code` is the count of the known attributes that were written plus `Code.attributes.length`, the
+known attributes, and then — last, as at class / field / method / record-component level — each unknown attribute as
+name index, `u32` length, bytes; the name indices are the ones the loop's `put_utf8` calls returned -/
+theorem writeCode_unknown_written {c : Code} {p p' : Pool} {bs bs' : List Bsm} {b : Bytes}
+    (h : writeCode c p bs = .ok (b, p', bs')) :
+    ∃ (pre : Bytes) (known : List Bytes) (q : Pool) (ncs : List Nat), ncs.length = c.attrs.length ∧
+      runAttrs (unknownAttrs c.attrs) q = .ok ((ncs.zip c.attrs).map (fun x => attrFrame x.1 x.2.bytes), p') ∧
+      known.length + c.attrs.length ≤ 65535 ∧ (∀ a ∈ c.attrs, a.bytes.length < 4294967296) ∧
+      b = pre ++ be16 (known.length + c.attrs.length) ++ known.flatten ++
+        ((ncs.zip c.attrs).map fun x => be16 x.1 ++ be32 x.2.bytes.length ++ x.2.bytes).flatten := by
+  obtain ⟨is, p1, res, eb, p2, smt, p3, as, ab, _, _, _, _, h4, h5, rfl⟩ := writeCode_inv rfl h
+  obtain ⟨r0, q5, ru, _, ku, rfl⟩ := runAttrs_append_inv h4
+  obtain ⟨ncs, hlen, rfl, hb⟩ := unknownAttrs_shape c.attrs ku
+  obtain ⟨hcount, rfl⟩ := attrsBytes_inv h5
+  have hz : (ncs.zip c.attrs).length = c.attrs.length := by simp [List.length_zip, hlen]
+  refine ⟨be16 c.maxStack ++ be16 c.maxLocals ++ be32 res.code.length ++ res.code ++ eb, smtBytes smt ++ r0, q5, ncs,
+    hlen, ku, ?_, ?_, ?_⟩
+  · simp only [List.length_append, List.length_map, hz] at hcount ⊢
+    omega
+  · intro a ha
+    obtain ⟨i, hi⟩ : ∃ i, (i, a) ∈ ncs.zip c.attrs := by
+      obtain ⟨k, hk, rfl⟩ := List.getElem_of_mem ha
+      exact ⟨ncs[k]'(by omega), by
+        rw [List.mem_iff_getElem]
+        exact ⟨k, by simp [hlen, hk], by simp⟩⟩
+    exact hb _ hi
+  · simp only [List.length_append, List.length_map, hz, List.flatten_append, attrFrame, List.append_assoc, Nat.add_assoc]
 
 end ClassWriteFull
